@@ -57,6 +57,9 @@ HOSTILE_TEXT = [
     '.inf', 'a\r\nb', '\r', '---', '...', '<<', 'é', '12:30:45', '1e-7',
     'long ' + 'word' * 40, ' ', ' ', 'a b', 'Ω≈ç√', '日本語',
     '#N/A', '#DIV/0!', '{"a": 1}', 'a,b', 'a;b', '0', '00012', '-0',
+    # runs of blanks where a writer would fold a long line
+    'w' * 118 + '  ' + 'z' * 20, 'a  b' * 50, 'x' * 100 + ' ' * 40 + 'y',
+    'p   q ' * 30, "'lead", "''", '@a', 'a' * 300,
 ]
 HOSTILE_NUM = [1e-7, 1e22, -0.0, 5e-324, 2 ** 53 + 1, 0.1 + 0.2, 1e100,
                123456789012345678, 1.5, -3, 1e-320, 1.7976931348623157e308,
